@@ -26,6 +26,7 @@ type cpuRig struct {
 	bus   [][]int
 	cycle int
 	cpuOn bool
+	decoy *machine.Machine // never stepped; see newCPURig
 }
 
 func newCPURig() *cpuRig {
@@ -37,6 +38,9 @@ func newCPURig() *cpuRig {
 	r.m.I.Disable()
 	r.m.I.WriteIE(0)
 	r.m.I.WriteIF(0)
+	// a second emulator created afterwards and left alone (registers as at power-on, F = B0): an instruction of the
+	// first one must not depend on it (dispatch tables, condition predicates or flags shared between instances)
+	r.decoy = machine.New(machine.BlankROM(0x00), machine.Options{})
 	memory.VerifBusObserver = func(mm *memory.Mapper, write bool, addr uint16, value uint8) {
 		if !r.cpuOn || mm != r.m.M {
 			return
@@ -144,7 +148,12 @@ func (r *cpuRig) unit(pre []int, ob []int, placed [][]int) []any {
 	if bus == nil {
 		bus = [][]int{}
 	}
-	return []any{1, pre, ob, bus, post, n}
+	return []any{1, pre, ob, bus, post, n, runState(m.CPU.VerifGet())}
+}
+
+// runState: 1 halted, 2 stopped, 4 halt bug armed - what decides whether the CPU goes on fetching
+func runState(g cpu.VerifRegs) int {
+	return trace.B2I(g.Halted) | trace.B2I(g.Stopped)<<1 | trace.B2I(g.Haltbug)<<2
 }
 
 // unitPert executes one instruction while the harness rewrites every
@@ -625,6 +634,29 @@ func cpuGen(c *Ctx) {
 						continue
 					}
 					e.add(rig.unit(pre, ob, place(rng, pre, ob)))
+				}
+			}
+		}
+		// branches whose target is the instruction itself or one of its neighbours (idle loops such as "wait: jp wait")
+		for _, op := range []int{0xc3, 0xc2, 0xca, 0xd2, 0xda, 0xcd, 0xc4, 0xcc, 0xd4, 0xdc, 0x18, 0x20, 0x28, 0x30, 0x38, 0xe9, 0xc9, 0xd9, 0xc0, 0xc8, 0xd0, 0xd8} {
+			for k := -2; k <= 4; k++ {
+				for _, fl := range []int{0x00, 0xf0} {
+					pre := regionRegs(rng, 0xd000, 0xdd00)
+					pre[1] = fl
+					pc := pre[9]
+					t := (pc + k) & 0xffff
+					ob := []int{op, t & 0xff, t >> 8}
+					var placed [][]int
+					switch {
+					case op&0xe7 == 0x20 || op == 0x18:
+						ob[1] = (k - 2) & 0xff
+						ob[2] = rng.Intn(256)
+					case op == 0xe9:
+						pre[6], pre[7] = t>>8, t&0xff
+					case op == 0xc9 || op == 0xd9 || op&0xe7 == 0xc0:
+						placed = [][]int{{pre[8], t & 0xff}, {(pre[8] + 1) & 0xffff, t >> 8}}
+					}
+					e.add(rig.unit(pre, ob, placed))
 				}
 			}
 		}
